@@ -37,6 +37,11 @@ for k in BITS:
                    '  rcases h1 with h1 | h1 <;> rcases h2 with h2 | h2 <;> simp [h1, h2] <;> omega') % (d, d, d, d)))
     out.append(A + 'theorem setFlag_same_%d (p : Int) (b c : Bool) : setFlag (setFlag p %d b) %d c = setFlag p %d c := by\n'
                '  cases b <;> cases c <;> simp [setFlag] <;> omega\n' % (k, k, k, k))
+    out.append(A + 'theorem setFlag_of_flag_%d (p : Int) (b : Bool) (h : flag p %d = b) : setFlag p %d b = p := by\n'
+               '  subst h; simp only [setFlag, flag, eqB]\n'
+               '  %s\n' % (k, k, k,
+               ('have h1 : p % 2 = 0 ∨ p % 2 = 1 := by omega\n  rcases h1 with h1 | h1 <;> simp [h1]') if k == 0 else
+               ('have h1 : p / %d %% 2 = 0 ∨ p / %d %% 2 = 1 := by omega\n  rcases h1 with h1 | h1 <;> simp [h1]' % (1 << k, 1 << k))))
     out.append(A + 'theorem flag_setFlag_same_%d (p : Int) (b : Bool) : flag (setFlag p %d b) %d = b := by\n'
                '  cases b <;> simp [setFlag, flag, eqB] <;> omega\n' % (k, k, k))
     for j in BITS:
